@@ -32,6 +32,13 @@ var modAccs = [][2]string{{"farm", farmtypes.ModuleName}, {"collector", farmtype
 type R struct {
 	env   *hx.Env
 	names map[string]string // bech32 -> symbolic
+	// Genesis makes Gen emit `farm export` / `farm reimport` now and then (C12 runs only: the
+	// C05/C06/C13 histories stay what they were)
+	Genesis bool
+	// boundary: no message has been executed since the last block end (used by Gen only:
+	// re-imports are generated between blocks, where a real export is taken)
+	boundary        bool
+	pendingReimport bool
 }
 
 func New(env *hx.Env) *R {
@@ -88,6 +95,7 @@ func (r *R) Reset(ctx sdk.Context, line string) (sdk.Context, string) {
 	a := hx.Args(f[2:])
 	h, _ := strconv.ParseInt(a["h"], 10, 64)
 	ctx = hx.WithBlock(ctx, h, blockTime(h))
+	r.boundary = true
 	// two coinswap pools so that lpt-1 and lpt-2 are valid LP token denoms
 	setup := hx.Acc(99)
 	r.env.Fund(ctx, setup, sdk.NewCoins(sdk.NewInt64Coin("stake", 1000000), sdk.NewInt64Coin("btc", 1000), sdk.NewInt64Coin("eth", 1000)))
@@ -310,6 +318,13 @@ func (r *R) Exec(ctx sdk.Context, line string) (sdk.Context, string) {
 	f := strings.Fields(line)
 	a := hx.Args(f[2:])
 	var msg sdk.Msg
+	switch f[1] {
+	case "export", "reimport":
+	case "end_block":
+		r.boundary = true
+	default:
+		r.boundary = false
+	}
 	switch f[1] {
 	case "export":
 		gs := farmmod.ExportGenesis(ctx, r.env.Farm)
